@@ -176,10 +176,18 @@ def run(rep):
     rep.extra["canaries_rejected"] = [c[0] for c in cans]
     if nsim == 0 and not rep.violations:      # (with violations recorded, they are the verdict)
         raise tlc.MachineryError("vacuity: no similar-sheet notice observed")
+    # the per-type decision table of the parameters cell (TypeParams.tla), this property's clauses
+    from harness.props import _typeparams
+
+    _typeparams.run(rep, PROP)
 
 
 def replay(rep, case):
     c = case["case"]
+    if c.get("typeparams"):
+        from harness.props import _typeparams
+
+        return _typeparams.replay(rep, PROP, c)
     job = dict(c["job"])
     if job["kind"] == "iana":
         job["wb"] = c["wb"]
